@@ -55,7 +55,10 @@ def cases(draw, max_puts=8):
             'stop_dur': draw(st.sampled_from([1, 2])), 'stop_fail': draw(st.integers(0, 7)) == 0,
             'puts': puts, 'stop': stop,
             'stop_timeout': draw(st.sampled_from([2.0, 2.5, 4.0])) if tight else 100.0,
-            'kwargs': draw(st.booleans())}
+            'kwargs': draw(st.booleans()),
+            # another block is still initialising asynchronously until t = 5: a stop before that
+            # instant reaches the output block before its own regular initialisation
+            'slow_init': draw(st.integers(0, 3)) == 0}
 
 
 def strategy(tier):
@@ -138,8 +141,15 @@ def execute(case):
             'oa', coro=coro, mode=case['mode'], stop_timeout=case['stop_timeout'],
             on_success=edzed.Event(resrec, 'success'), on_error=edzed.Event('res', 'error'),
             on_cancel=edzed.Event(resrec, 'cancel'), on_output=edzed.Event('out', 'o'), **kwargs)
-        sim = harness.Running()
+        if case.get('slow_init'):
+            async def slow():
+                await asyncio.sleep(5)
+                return 1
+            edzed.InitAsync('slowinit', init_coro=[slow], init_timeout=8)
+        sim = harness.Running(wait=not case.get('slow_init'))
         await sim.__aenter__()
+        if case.get('slow_init'):
+            await asyncio.sleep(0)      # the simulation task has started the blocks
         if sim.init_error is not None:
             info['init_error'] = repr(circuit.error)
             await sim.stop()
@@ -308,6 +318,8 @@ def execute(case):
                 busy = True
     res.nontrivial = len(puts) >= 2 and busy
     res.classes = [f"mode={mode}", 'generous' if generous else 'tight stop_timeout']
+    if case.get('slow_init') and case['stop'] < 5:
+        res.classes.append('stopped during start-up')
     if guard:
         res.classes.append('guard_time')
     if case['stop_data']:
